@@ -528,6 +528,12 @@ def msd(np, a, tgt):
 def icp_instance(np, seed, kind):
     """source, target, initial transform (or None), the transform to recover (or None)."""
     g = np.random.default_rng(seed)
+    if kind == "basin_far":
+        # the same small exact perturbation, seen in a map frame far from the origin (coordinates ~1e3, spacing ~1):
+        # closest points are still well separated at float32 resolution; distances must be formed from differences
+        x, y, _, (R, t) = icp_instance(np, seed, "basin")
+        c = np.array([800.0, -600.0, 400.0]) * float(g.choice([1.0, 2.5]))
+        return x + c, y + c, None, (R, t + c - R @ c)
     if kind in ("basin", "basin_init"):
         # jittered grid: pairwise distances >= 0.6; every point moves by < 0.15, so the first closest-point
         # assignment is the true correspondence and a correct ICP recovers the perturbation to round-off
@@ -697,7 +703,7 @@ def icp_traces(ctx, per):
         raise MachineryError("batched ICP family is vacuous: no judged item needed more than %d stepper step alone"
                              % getattr(icp_batch_trace, "max_steps", 0))
     ctx.extra["icp_batch_max_steps_alone"] = icp_batch_trace.max_steps
-    for kind in ("basin", "basin_init", "mono", "init", "planar", "n3"):
+    for kind in ("basin", "basin_far", "basin_init", "mono", "init", "planar", "n3"):
         for dtype_name in ("float64", "float32"):
             for steps in (0, 1, 3):        # 0: the default stepper
                 seeds = [ctx.rng.randrange(1 << 30) for _ in range(per)]
